@@ -10,6 +10,7 @@ import (
 
 	"github.com/OffchainLabs/go-bitfield"
 	eth2api "github.com/attestantio/go-eth2-client/api"
+	eth2v1 "github.com/attestantio/go-eth2-client/api/v1"
 	eth2spec "github.com/attestantio/go-eth2-client/spec"
 	"github.com/attestantio/go-eth2-client/spec/electra"
 	"github.com/attestantio/go-eth2-client/spec/altair"
@@ -71,6 +72,8 @@ func (vClient) Spec(context.Context, *eth2api.SpecOpts) (*eth2api.Response[map[s
 		string(signing.DomainSyncCommittee): eth2p0.DomainType{7, 0, 0, 0},
 		string(signing.DomainExit):          eth2p0.DomainType{4, 0, 0, 0},
 		string(signing.DomainBeaconAttester): eth2p0.DomainType{1, 0, 0, 0},
+		string(signing.DomainSelectionProof):              eth2p0.DomainType{5, 0, 0, 0},
+		string(signing.DomainSyncCommitteeSelectionProof): eth2p0.DomainType{8, 0, 0, 0},
 	}}, nil
 }
 
@@ -259,6 +262,73 @@ func VerifC10VapiAtt() {
 	valid := want != 0 && sig[0] == 1 && sKey == want && sHead == head && sTarget == target && sameFork
 	err := c.SubmitAttestations(context.Background(), &eth2api.SubmitAttestationsOpts{Attestations: []*eth2spec.VersionedAttestation{att}})
 	vrt.Assert("an attestation is accepted exactly when it verifies for its own data, domain and target epoch under this node's public share of the attesting cluster validator",
+		(err == nil) == valid)
+	vrt.Assert("subscribers are called only for an accepted submission", (*delivered == 1) == (err == nil) && *delivered <= 1)
+	if err == nil {
+		vrt.Reach("accepted")
+	}
+	vrt.Reach("end")
+}
+
+func init() { VerifHarnesses["VerifC10VapiSelection"] = VerifC10VapiSelection }
+
+// VerifC10VapiSelection: the validator client asks for an aggregated selection proof: kind 0 = beacon committee selection
+// (attestation aggregator), kind 1 = sync committee selection. Validator index concrete per case (1, 2 in the lock, 3 not);
+// slot, subcommittee and every ingredient of what the partial selection proof was made over are symbolic.
+func VerifC10VapiSelection() {
+	c, delivered := vComponent()
+	kind := vrt.Param("kind")
+	vidx := byte(vrt.Param("val"))
+	slot, sub := uint64(vrt.Byte("slot")), uint64(vrt.Byte("subcommittee"))
+	// what the signature is over: a selection for (sSlot[, sSub]) in the domain sDom at the fork of sForkEpoch, by key sKey
+	sSlot, sSub := uint64(vrt.Byte("signSlot")), uint64(vrt.Byte("signSubcommittee"))
+	sForkEpoch := uint64(vrt.Byte("signForkEpoch"))
+	sKey := vrt.Byte("signKey")
+	sOtherDomain := vrt.Bool("signOtherDomain")
+	var sRoot [32]byte
+	var errR error
+	dom, other := signing.DomainSelectionProof, signing.DomainSyncCommitteeSelectionProof
+	if kind == 1 {
+		dom, other = other, dom
+		sRoot, errR = core.SyncCommitteeSelection{SyncCommitteeSelection: eth2v1.SyncCommitteeSelection{Slot: eth2p0.Slot(sSlot), SubcommitteeIndex: sSub}}.MessageRoot()
+	} else {
+		sRoot, errR = core.BeaconCommitteeSelection{BeaconCommitteeSelection: eth2v1.BeaconCommitteeSelection{Slot: eth2p0.Slot(sSlot)}}.MessageRoot()
+	}
+	vrt.Assert("selection root computable", errR == nil)
+	sDom := dom
+	if sOtherDomain {
+		sDom = other
+	}
+	sd, errD := signing.GetDataRoot(context.Background(), vClient{}, sDom, eth2p0.Epoch(sForkEpoch), sRoot)
+	vrt.Assert("signing root computable", errD == nil)
+	var sig eth2p0.BLSSignature
+	sig[0], sig[1] = vrt.Byte("sigKind"), sKey
+	for i := 0; i < 8; i++ {
+		sig[2+i] = sd[i]
+	}
+	c.RegisterAwaitAggSigDB(func(_ context.Context, _ core.Duty, _ core.PubKey, _ core.SubcommitteeIndex) (core.SignedData, error) {
+		if kind == 1 {
+			return core.SyncCommitteeSelection{SyncCommitteeSelection: eth2v1.SyncCommitteeSelection{ValidatorIndex: eth2p0.ValidatorIndex(vidx), Slot: eth2p0.Slot(slot), SubcommitteeIndex: sub}}, nil
+		}
+		return core.BeaconCommitteeSelection{BeaconCommitteeSelection: eth2v1.BeaconCommitteeSelection{ValidatorIndex: eth2p0.ValidatorIndex(vidx), Slot: eth2p0.Slot(slot)}}, nil
+	})
+	want := byte(0)
+	if vidx == 1 {
+		want = 12
+	} else if vidx == 2 {
+		want = 22
+	}
+	sameFork := (slot/4 >= 20) == (sForkEpoch >= 20)
+	valid := want != 0 && sig[0] == 1 && sKey == want && sSlot == slot && (kind == 0 || sSub == sub) && sameFork && !sOtherDomain
+	var err error
+	if kind == 1 {
+		_, err = c.SyncCommitteeSelections(context.Background(), &eth2api.SyncCommitteeSelectionsOpts{Selections: []*eth2v1.SyncCommitteeSelection{
+			{ValidatorIndex: eth2p0.ValidatorIndex(vidx), Slot: eth2p0.Slot(slot), SubcommitteeIndex: sub, SelectionProof: sig}}})
+	} else {
+		_, err = c.BeaconCommitteeSelections(context.Background(), &eth2api.BeaconCommitteeSelectionsOpts{Selections: []*eth2v1.BeaconCommitteeSelection{
+			{ValidatorIndex: eth2p0.ValidatorIndex(vidx), Slot: eth2p0.Slot(slot), SelectionProof: sig}}})
+	}
+	vrt.Assert("a partial selection proof is accepted exactly when it verifies for its own slot (and subcommittee), domain and epoch under this node's public share of a cluster validator",
 		(err == nil) == valid)
 	vrt.Assert("subscribers are called only for an accepted submission", (*delivered == 1) == (err == nil) && *delivered <= 1)
 	if err == nil {
